@@ -111,6 +111,21 @@ MiscCases ==
    CaseOf("C03/misc/boolslice", <<Def1("s", SliceLit("bool", <<BoolL(TRUE), BoolL(FALSE)>>)), SetIdx("s", N(3), CmpE("<", N(1), N(2))),
                                   RangeS("i", "v", Var("s"), <<If(<<Branch(Var("v"), <<PrintS(<<Var("i"), StrL("yes")>>)>>)>>, <<PrintS(<<Var("i"), StrL("no")>>)>>)>>)>>)}
 
-All == SubCases \cup IdxCases \cup StrOps \cup GrowCases \cup Hist2 \cup Hist3 \cup CopyCases \cup MiscCases
+\* range loops: one and two loops (nested, in sequence, across a call) over slices and strings of every pair of lengths, with both variables or the
+\* index only; whatever a back-end keeps per loop (length, position, flag) must be private to the loop
+Iter(kind, l) == IF kind = "str" THEN StrL(Pref(l)) ELSE SliceLit("int", [k \in 1..l |-> N(10 * k)])
+RVars == {"both", "idx"}
+RangeOf(kind, l, rv, i, v, body) == RangeS(IF rv = "val" THEN "_" ELSE i, IF rv = "idx" THEN "" ELSE v, Iter(kind, l),
+                                           <<PrintS((IF rv = "val" THEN <<>> ELSE <<Var(i)>>) \o (IF rv = "idx" THEN <<>> ELSE <<Var(v)>>))>> \o body)
+RLens == IF Quick THEN {0, 1, 2, 3} ELSE {0, 1, 2, 3, 4, 10, 11}
+Range2 == {CaseOf("C03/range2/" \o sh \o "/" \o k1 \o ToString(l1) \o rv1 \o "-" \o k2 \o ToString(l2) \o rv2,
+                  CASE sh = "nested" -> <<RangeOf(k1, l1, rv1, "i", "v", <<RangeOf(k2, l2, rv2, "j", "w", <<>>), Print1(StrL("-"))>>), Print1(StrL("end"))>>
+                    [] sh = "seq" -> <<RangeOf(k1, l1, rv1, "i", "v", <<>>), RangeOf(k2, l2, rv2, "j", "w", <<>>), Print1(StrL("end"))>>
+                    [] sh = "call" -> <<Func("inner", <<Param("p", "int")>>, <<>>, <<RangeOf(k2, l2, rv2, "j", "w", <<>>)>>),
+                                        RangeOf(k1, l1, rv1, "i", "v", <<ExprS(CallE("inner", <<N(1)>>))>>), Print1(StrL("end"))>>
+                    [] sh = "infunc" -> <<Func("both", <<>>, <<>>, <<RangeOf(k1, l1, rv1, "i", "v", <<RangeOf(k2, l2, rv2, "j", "w", <<>>)>>)>>), ExprS(CallE("both", <<>>)), ExprS(CallE("both", <<>>))>>)
+           : sh \in {"nested", "seq", "call", "infunc"}, k1 \in {"str", "sl"}, k2 \in {"str", "sl"}, l1 \in RLens \ {0}, l2 \in RLens,
+             rv1 \in (IF Quick THEN {"both"} ELSE RVars), rv2 \in (IF Quick THEN {"both", "idx"} ELSE RVars)}
+All == Range2 \cup SubCases \cup IdxCases \cup StrOps \cup GrowCases \cup Hist2 \cup Hist3 \cup CopyCases \cup MiscCases
 ASSUME ndJsonSerialize("fam.ndjson", SetToSeq(All))
 =============================================================================
